@@ -200,7 +200,7 @@ def run_tlc(
     spec_dir = Path(spec_dir)
     tmp = tempfile.mkdtemp(prefix="vtlc_")
     try:
-        cmd = ["java", "-XX:+UseParallelGC"]
+        cmd = ["java", "-XX:+UseParallelGC", "-Xmx" + os.environ.get("VERIF_TLC_XMX", "5g")]
         if dfs_queue:
             cmd.append("-Dtlc2.tool.queue.IStateQueue=StateDeque")
         cmd += java_opts or []
@@ -298,13 +298,19 @@ def _parse(res: TlcResult, parse_prints: bool) -> None:
     flush()
     res.error_trace = trace
     if parse_prints:
+        acc = ""
         for ln in lines:
             s = ln.strip()
-            if s.startswith("<<") and s.endswith(">>"):
-                try:
-                    res.prints.append(parse_value(s))
-                except Exception:  # noqa: BLE001
-                    pass
+            if not acc and not s.startswith("<<"):
+                continue
+            acc = (acc + " " + s) if acc else s
+            if acc.count("<<") > acc.count(">>") and len(acc) < 200000:
+                continue  # a long PrintT value wrapped over several lines
+            try:
+                res.prints.append(parse_value(acc))
+            except Exception:  # noqa: BLE001
+                pass
+            acc = ""
 
 
 def sany(module: str, spec_dir: Path | str = SPEC) -> tuple[bool, str]:
